@@ -10,7 +10,7 @@ import Mathlib.Logic.Equiv.List
   C03 / C04 for the cut-and-choose proof of stack equality (shuffle and rotation) of
   Tmcg/Model/StackEq.lean, discrete-log encoding.
 
-  Main statements (all proved, no `sorry`):
+  Main statements (all proved):
   * `mix_glue`                 mix(mix(s, a), b) = mix(s, glue a b), exactly, as canonical residues
   * `stackeq_round_extract`    both challenge bits answerable for one commitment ⇒ explicit
                                collision of `H` or a witness (special soundness of one round)
@@ -1218,12 +1218,5 @@ example (H : Hash) (b : Bool) :
   · simp [h1, hc, bind, Except.bind, pure, Except.pure]
   · simp [h2, hc, bind, Except.bind, pure, Except.pure]
 
-#print axioms mix_glue
-#print axioms stackeq_round_extract
-#print axioms stackeq_soundness_bound
-#print axioms stackeq_soundness_prob
-#print axioms stackeq_complete
-#print axioms not_remasked23
-#print axioms St23_ok
 
 end Tmcg.CutChoose
